@@ -56,6 +56,7 @@ GenDescs3 == {GenD1, GenD2, GenD3}
 (* command, unknown parameter, unknown module                                            *)
 GIdentsQ == {<<"m1", "value">>, <<"m1", "">>, <<"m2", "">>, <<"m2", "x">>, <<"m1", "cmd">>, <<"zz", "value">>}
 GLevelsQ == {NodeL, <<"m1", "">>, <<"m1", "value">>, <<"m2", "x">>}
+GIdentsM == GIdentsQ \cup {<<"m2", "target">>, <<"m1", "target">>, <<"m2", "value">>}
 GIdentsT == Idents
 GLevelsT == Levels
 =============================================================================
